@@ -284,3 +284,68 @@ spec fn entry_latest(k: FoundDateTimeKind) -> DateTime {
         FoundDateTimeKind::Skipped { before_transition, after_transition } => after_transition,
     }
 }
+
+// ---- the DST-rule branch of the search ---------------------------------------------------------------------
+
+// start and end instants strictly alternate in every year (the class C04's quantifier names, without coincidences:
+// known findings F3 / F4 / F2 live outside it)
+spec fn strict_interleaving(a: AlternateTime) -> bool {
+    ||| (forall|y: int| alt_s(a, y) < #[trigger] alt_e(a, y) && alt_e(a, y) < alt_s(a, y + 1))
+    ||| (forall|y: int| alt_e(a, y) < #[trigger] alt_s(a, y) && alt_s(a, y) < alt_e(a, y + 1))
+}
+
+// candidate instants of a searched civil time in year y: within two days of that year
+spec fn near_year(u: int, y: int) -> bool {
+    (dby(y) - 2) * 86400 <= u <= (dby(y + 1) + 2) * 86400
+}
+
+// the seven instants the search looks at for searched year y, in the order it walks them: the start/end instants of the years
+// y-1, y, y+1 (pairwise swapped for an end-first rule) and a sentinel
+spec fn rule_times(a: AlternateTime, y: int, sorted: bool) -> Seq<int> {
+    if sorted {
+        seq![alt_s(a, y - 1), alt_e(a, y - 1), alt_s(a, y), alt_e(a, y), alt_s(a, y + 1), alt_e(a, y + 1), i64::MAX as int]
+    } else {
+        seq![alt_e(a, y - 1), alt_s(a, y - 1), alt_e(a, y), alt_s(a, y), alt_e(a, y + 1), alt_s(a, y + 1), i64::MAX as int]
+    }
+}
+
+// is the clock on daylight time in the segment that ends at the k-th of these instants?
+spec fn seg_is_dst(sorted: bool, k: int) -> bool {
+    (k % 2 == 1) == sorted
+}
+
+spec fn seg_type(a: AlternateTime, sorted: bool, k: int) -> LocalTimeType {
+    if seg_is_dst(sorted, k) { a.dst } else { a.std }
+}
+
+// u lies in segment k of the walk that starts after instant p0 (the last table transition, or -infinity)
+spec fn in_seg(t: Seq<int>, p0: int, k: int, u: int) -> bool {
+    &&& 0 <= k <= 6
+    &&& p0 <= u
+    &&& (k > 0 ==> t[k - 1] <= u)
+    &&& u < t[k]
+}
+
+spec fn times_increasing(t: Seq<int>) -> bool {
+    t.len() == 7 && t[0] < t[1] && t[1] < t[2] && t[2] < t[3] && t[3] < t[4] && t[4] < t[5] && t[5] < t[6]
+}
+
+// completeness record of the walk: every segment k in [lo, hi) whose candidate falls into it has been reported
+spec fn segs_found(q: FindQuery, a: AlternateTime, sorted: bool, t: Seq<int>, p0: int, rs: Seq<FoundDateTimeKind>, lo: int, hi: int) -> bool {
+    forall|k: int| lo <= k < hi && #[trigger] in_seg(t, p0, k, q_civil(q) - seg_type(a, sorted, k).ut_offset)
+        ==> has_normal(rs, q_dt(q, seg_type(a, sorted, k), (q_civil(q) - seg_type(a, sorted, k).ut_offset) as i64))
+}
+
+// the instant after which the trailing rule applies
+spec fn rule_from(z: TimeZoneRef) -> int {
+    if z.transitions@.len() > 0 { g_spec(z.leap_seconds@, z.transitions@[z.transitions@.len() - 1].unix_leap_time as int) } else { i64::MIN as int }
+}
+
+// scope of the proof for zones with a DST rule: strictly interleaving rule (outside: known findings F2 / F3 / F4), both candidate
+// instants inside the year range of the rule evaluator (outside: known finding F5)
+spec fn rule_scope(z: TimeZoneRef, q: FindQuery) -> bool {
+    match *z.extra_rule {
+        Some(TransitionRule::Alternate(a)) => strict_interleaving(a) && alt_u_ok(q_civil(q) - a.std.ut_offset) && alt_u_ok(q_civil(q) - a.dst.ut_offset),
+        _ => true,
+    }
+}
